@@ -228,6 +228,20 @@ def shuffledPostings {α} (segs : List (Segment α)) (tbl : List (Nat × Nat)) (
 /-- per-document data through an arbitrary table (`write_fieldnorms`, shuffled columnar merge) -/
 def shuffledDocs {α} (segs : List (Segment α)) (tbl : List (Nat × Nat)) : List α := copyDocs segs tbl
 
+/-- mirrors: src/indexer/merger.rs::write_storable_fields, non-trivial mapping: one raw-document
+iterator per source over its ALIVE documents; for every entry of the new→old table the NEXT
+document of that source's iterator is stored (`none` = "unexpected missing document in docstore
+on merge") -/
+def storeIter {α} : List (List α) → List (Nat × Nat) → Option (List α)
+  | _, [] => some []
+  | iters, a :: rest =>
+    match iters[a.1]? with
+    | some (x :: xs) => (storeIter (iters.set a.1 xs) rest).map (x :: ·)
+    | _ => none
+
+def storeIters {α} (segs : List (Segment α)) : List (List α) :=
+  segs.map fun s => liveDocs s.docs s.alive
+
 /-! ### well-formedness of a physical segment -/
 
 /-- strictly increasing doc ids below `n` -/
